@@ -129,9 +129,12 @@ def main():
     from lib.xworker import load_module
 
     conds, zjobs, meta = [], [], {'encoded': [], 'stubs': [], 'assumptions': [], 'bounds': []}
-    for m in spec.get('harness', []):
+    for hent in spec.get('harness', []):
+        m, fnfilter = (hent, None) if isinstance(hent, str) else hent
         mod = load_module(os.path.join(ROOT, m))
         for c in mod.PLAN(a.tier):
+            if fnfilter is not None and c['fn'] not in fnfilter:
+                continue
             if a.only and a.only not in c['fn']:
                 continue
             c = dict(c)
